@@ -68,6 +68,9 @@ var c07Log struct {
 	ops []c07Op
 }
 
+// set while a burst scenario runs (several writers put concurrently)
+var c07Concurrent bool
+
 func c07LogOp(o c07Op) {
 	c07Log.Lock()
 	c07Log.ops = append(c07Log.ops, o)
@@ -204,7 +207,10 @@ func (p *c07Pipe) write(n int) (string, error) {
 }
 
 func (p *c07Pipe) closeW() {
+	q := p.w.session.queueManager.sendQueue
 	before := atomic.LoadUint64(&p.w.session.stats.queueFullErrorCount)
+	tailBefore := atomic.LoadInt64(q.tail)
+	wasFallback := p.w.inFallbackState
 	if p.sib != nil {
 		p.sib.mu.Lock()
 		p.sib.ReaderClosed = true
@@ -212,9 +218,15 @@ func (p *c07Pipe) closeW() {
 	}
 	p.w.Close()
 	p.Closed = true
-	p.CloseVia = "shm"
-	if atomic.LoadUint64(&p.w.session.stats.queueFullErrorCount) != before {
+	// which way did the close notification travel?  (observed, not assumed: no close element was put if the
+	// queue's tail did not move or the put reported full)
+	switch {
+	case atomic.LoadUint64(&p.w.session.stats.queueFullErrorCount) != before, atomic.LoadInt64(q.tail) == tailBefore:
 		p.CloseVia = "sock"
+	case wasFallback && c07Concurrent:
+		p.CloseVia = "unknown" // concurrent writers may have moved the tail; cannot tell
+	default:
+		p.CloseVia = "shm"
 	}
 	c07LogOp(c07Op{Stream: p.Stream, Dir: p.Dir, Kind: "c", Via: p.CloseVia, Ok: true})
 }
@@ -542,6 +554,8 @@ func c07Sequential(id int, r *vrand) c07Case {
 // ---- generated scenario: rounds of concurrent writers / closers with exhaustion between rounds ----
 func c07Burst(id int, r *vrand) c07Case {
 	c := c07Case{ID: id, Kind: "burst"}
+	c07Concurrent = true
+	defer func() { c07Concurrent = false }()
 	client, server := c07Pair(0, nil)
 	n := 2 + r.intn(5)
 	pipes := c07Open(&c, client, server, n)
